@@ -41,7 +41,7 @@ func BindSpecs(thorough bool) []*spec.Spec {
 				spec.RPC("QueryPost", "QPut", "Out", "POST", "/q/{id}"),
 				spec.RPC("QueryPatch", "QPut", "Out", "PATCH", "/q/{id}"),
 			)}}
-		out = append(out, withCell(spec.One("bind_query_"+card, f), "bind/loc=query,card="+card, "extended", "valid", "bind", "serveronly"))
+		out = append(out, withCell(spec.One("bind_query_"+card, f), "bind/loc=query,card="+card, "extended", "valid", "bind"))
 	}
 	{
 		// required + renamed + repeated numeric query parameters, and path variables of every kind on a body verb
@@ -52,7 +52,7 @@ func BindSpecs(thorough bool) []*spec.Spec {
 				spec.RPC("ReqGet", "ReqGet", "Out", "GET", "/r"),
 				spec.RPC("ReqPut", "Req", "Out", "PUT", "/r"),
 			)}}
-		out = append(out, withCell(spec.One("bind_required_renamed", f), "bind/loc=query,card=required_renamed_repeated", "extended", "valid", "bind", "serveronly"))
+		out = append(out, withCell(spec.One("bind_required_renamed", f), "bind/loc=query,card=required_renamed_repeated", "extended", "valid", "bind"))
 	}
 	{
 		var msgs []*spec.Message
@@ -63,7 +63,7 @@ func BindSpecs(thorough bool) []*spec.Spec {
 			s.Methods = append(s.Methods, spec.RPC("Put_"+k, m.Name, "Out", "PUT", "/"+k+"/{v}"))
 		}
 		f := &spec.File{Messages: append(msgs, spec.M("Out", spec.F("ok", "bool"))), Services: []*spec.Service{s}}
-		out = append(out, withCell(spec.One("bind_path_kinds", f), "bind/loc=path,card=singular", "extended", "valid", "bind", "serveronly"))
+		out = append(out, withCell(spec.One("bind_path_kinds", f), "bind/loc=path,card=singular", "extended", "valid", "bind"))
 	}
 	return out
 }
